@@ -268,6 +268,23 @@ struct MonCV
 		return sig;
 	}
 
+	// the forms without a predicate (the library does not use them today; a changed library may)
+	template <typename Lock>
+	void wait(Lock & lock) {
+		waits.fetch_add(1, std::memory_order_relaxed);
+		if(abortWaits.load(std::memory_order_relaxed)) return;
+		perturb("cv.pred-false");
+		block(lock, false, std::chrono::steady_clock::time_point());
+	}
+	template <typename Lock, typename Rep, typename Period>
+	std::cv_status wait_for(Lock & lock, const std::chrono::duration<Rep, Period> & d) {
+		waits.fetch_add(1, std::memory_order_relaxed);
+		if(abortWaits.load(std::memory_order_relaxed)) return std::cv_status::no_timeout;
+		perturb("cv.pred-false");
+		const std::chrono::steady_clock::time_point deadline = std::chrono::steady_clock::now() + std::chrono::duration_cast<std::chrono::steady_clock::duration>(d);
+		return block(lock, true, deadline) ? std::cv_status::no_timeout : std::cv_status::timeout;
+	}
+
 	template <typename Lock, typename Pred>
 	void wait(Lock & lock, Pred pred) {
 		waits.fetch_add(1, std::memory_order_relaxed);
